@@ -6,6 +6,7 @@ import PyodaProofs.C07Instances
 import PyodaProofs.C07DateTime
 import PyodaProofs.C07Text
 import PyodaProofs.C07TextInstances
+import PyodaProofs.C07Duration
 
 #print axioms Pyoda.C07.parseDigits_leftPad
 #print axioms Pyoda.C07.parseDigits_pad2
@@ -78,3 +79,15 @@ import PyodaProofs.C07TextInstances
 #print axioms Pyoda.C07.clock_compiles
 #print axioms Pyoda.C07.clock_delimited
 #print axioms Pyoda.C07.clock_generic_roundtrip
+#print axioms Pyoda.C07.annualIso_compiles
+#print axioms Pyoda.C07.annualIso_delimited
+#print axioms Pyoda.C07.annualIso_generic_roundtrip
+#print axioms Pyoda.C07.durRoundtrip_compiles
+#print axioms Pyoda.C07.durJson_compiles
+#print axioms Pyoda.C07.durRoundtrip_delimited
+#print axioms Pyoda.C07.durJson_delimited
+#print axioms Pyoda.C07.dur_getters
+#print axioms Pyoda.C07.dur_totalHours
+#print axioms Pyoda.C07.dur_value
+#print axioms Pyoda.C07.durRoundtrip_generic_roundtrip
+#print axioms Pyoda.C07.durJson_generic_roundtrip
